@@ -71,6 +71,16 @@ pub struct PairCase {
     /// HTTP/2 client: DATA frames of uploads carry this much padding
     #[serde(default)]
     pub h2_padding: Option<u8>,
+    /// names the scenario family in violation keys (so that a finding is tied to the shape that fails)
+    #[serde(default)]
+    pub family: Option<String>,
+    /// bodies travel without a declared length where the protocol allows it: HTTP/2 uploads and
+    /// h2c responses carry no content-length, HTTP/1.1 backends answer chunked (chunks of 1000 bytes)
+    #[serde(default)]
+    pub no_length: bool,
+    /// HTTP/2 senders precede every DATA frame by an empty DATA frame and by one made of padding only
+    #[serde(default)]
+    pub empty_frames: bool,
     /// the shrinking SETTINGS is sent only once this many body bytes of the first stream arrived
     /// (so that sozu's send window really goes negative)
     #[serde(default)]
@@ -79,7 +89,7 @@ pub struct PairCase {
 
 impl PairCase {
     pub fn simple(front: Proto, back: Proto, xfers: Vec<Xfer>) -> PairCase {
-        PairCase { front, back, xfers, initial_window: None, max_frame_size: None, header_table_size: None, grants: Grants::Eager, upload_frame: 16384, buffer_size: 16393, shrink_window_to: None, pace_front: None, spread_upload: false, huge_conn_window: false, h1_chunk: None, h2_padding: None, shrink_after_bytes: None }
+        PairCase { front, back, xfers, initial_window: None, max_frame_size: None, header_table_size: None, grants: Grants::Eager, upload_frame: 16384, buffer_size: 16393, shrink_window_to: None, pace_front: None, spread_upload: false, huge_conn_window: false, h1_chunk: None, h2_padding: None, shrink_after_bytes: None, no_length: false, empty_frames: false, family: None }
     }
 }
 
@@ -89,6 +99,16 @@ pub struct Outcome {
 
 fn upload(i: usize, n: usize) -> Vec<u8> {
     h1::coded_body((i as u8).wrapping_mul(7).wrapping_add(3), n)
+}
+
+/// the request target that makes the backend answer `down` bytes in the way the case asks for
+fn down_path(case: &PairCase, down: usize) -> String {
+    match (case.no_length, case.back, case.empty_frames) {
+        (false, _, _) => format!("/size/{down}"),
+        (true, Proto::H1, _) => format!("/chunked/{down}/1000"),
+        (true, Proto::H2, false) => format!("/nolen/{down}"),
+        (true, Proto::H2, true) => format!("/nolenpad/{down}"),
+    }
 }
 
 /// Runs the case; `tag` prefixes violation keys (e.g. "C14").
@@ -130,22 +150,26 @@ pub fn run_pair(tag: &str, case: &PairCase, prefix: Vec<u32>, profile: ChoicePro
                 let mut hs: Vec<(String, String)> = vec![
                     (":method".into(), if x.up > 0 { "POST" } else { "GET" }.into()),
                     (":scheme".into(), "https".into()),
-                    (":path".into(), format!("/size/{}", x.down)),
+                    (":path".into(), down_path(case, x.down)),
                     (":authority".into(), "a.io".into()),
                     ("x-xfer".into(), i.to_string()),
                 ];
-                if x.up > 0 {
+                if x.up > 0 && !case.no_length {
                     hs.push(("content-length".into(), x.up.to_string()));
                 }
                 script.push(Step::H2Headers { stream: sid, headers: hs, end_stream: x.up == 0, continuation_at: None });
             }
             for (i, x) in case.xfers.iter().enumerate() {
-                if x.up > 0 && case.h2_padding.is_some() {
-                    let pad = case.h2_padding.unwrap() as usize;
+                if x.up > 0 && (case.h2_padding.is_some() || case.empty_frames) {
+                    let pad = case.h2_padding.unwrap_or(0) as usize;
                     let body = upload(i, x.up);
                     let chunks: Vec<&[u8]> = body.chunks(case.upload_frame.max(1)).collect();
                     let mut raw = vec![];
                     for (k, c) in chunks.iter().enumerate() {
+                        if case.empty_frames {
+                            raw.extend_from_slice(&h2::frame(h2::DATA, 0, stream_ids[i], &[]));
+                            raw.extend_from_slice(&h2::frame(h2::DATA, h2::F_PADDED, stream_ids[i], &[3, 0, 0, 0]));
+                        }
                         let mut p = vec![pad as u8];
                         p.extend_from_slice(c);
                         p.extend(std::iter::repeat_n(0u8, pad));
@@ -202,7 +226,7 @@ pub fn run_pair(tag: &str, case: &PairCase, prefix: Vec<u32>, profile: ChoicePro
             for (i, x) in case.xfers.iter().enumerate() {
                 let body = upload(i, x.up);
                 let req = if x.up > 0 && case.h1_chunk.is_some() {
-                    let mut r = format!("POST /size/{} HTTP/1.1\r\nHost: a.io\r\nX-Xfer: {i}\r\nTransfer-Encoding: chunked\r\n\r\n", x.down).into_bytes();
+                    let mut r = format!("POST {} HTTP/1.1\r\nHost: a.io\r\nX-Xfer: {i}\r\nTransfer-Encoding: chunked\r\n\r\n", down_path(case, x.down)).into_bytes();
                     for c in body.chunks(case.h1_chunk.unwrap().max(1)) {
                         r.extend_from_slice(format!("{:x}\r\n", c.len()).as_bytes());
                         r.extend_from_slice(c);
@@ -211,11 +235,11 @@ pub fn run_pair(tag: &str, case: &PairCase, prefix: Vec<u32>, profile: ChoicePro
                     r.extend_from_slice(b"0\r\n\r\n");
                     r
                 } else if x.up > 0 {
-                    let mut r = format!("POST /size/{} HTTP/1.1\r\nHost: a.io\r\nX-Xfer: {i}\r\nContent-Length: {}\r\n\r\n", x.down, x.up).into_bytes();
+                    let mut r = format!("POST {} HTTP/1.1\r\nHost: a.io\r\nX-Xfer: {i}\r\nContent-Length: {}\r\n\r\n", down_path(case, x.down), x.up).into_bytes();
                     r.extend_from_slice(&body);
                     r
                 } else {
-                    format!("GET /size/{} HTTP/1.1\r\nHost: a.io\r\nX-Xfer: {i}\r\n\r\n", x.down).into_bytes()
+                    format!("GET {} HTTP/1.1\r\nHost: a.io\r\nX-Xfer: {i}\r\n\r\n", down_path(case, x.down)).into_bytes()
                 };
                 let n = req.len();
                 script.push(Step::Send { bytes: req, splits: vec![1, n / 2, n - 1] });
@@ -236,7 +260,10 @@ pub fn run_pair(tag: &str, case: &PairCase, prefix: Vec<u32>, profile: ChoicePro
         crate::common::machinery_error(&format!("worker creation failed: {e}"));
     }
     let mut violations: Vec<(String, String)> = vec![];
-    let pair = format!("{:?}-{:?}", case.front, case.back).to_lowercase();
+    let pair = match &case.family {
+        Some(f) => format!("{}|{f}", format!("{:?}-{:?}", case.front, case.back).to_lowercase()),
+        None => format!("{:?}-{:?}", case.front, case.back).to_lowercase(),
+    };
     let mut flag = |k: String, d: String| violations.push((format!("{tag}|{pair}|{k}"), d));
     if let Some(p) = &exec.subject_panic {
         flag("worker-panic".into(), format!("worker panicked: {p}"));
